@@ -712,6 +712,16 @@ def run(report, tier, seed):
             sympy_roundtrip(p, spec, viol, stats)
         if k < 2 and res is not None:
             report.sample({"stream": stream, "str": str(p)[:120], "repr": repr(p)[:120]}, cap=14)
+    # sympy round trip of integer coefficients beyond 2**53 (not on the float64 grid) and of names q2/q10
+    if have_sympy:
+        q = numpoly.variable(11)
+        for p in ((2 ** 53 + 1) * q[0] * q[1] - q[0] + 3, (2 ** 62 - 1) * q[1] ** 2 - (2 ** 60 + 1) * q[0] + 1,
+                  (2 ** 53 + 1) * q[10] ** 2 - 3 * q[2] * q[10] + (2 ** 61 + 7), -(2 ** 55 + 3) * q[2] ** 3 + q[2]):
+            sympy_roundtrip(p, spec_of(p), viol, stats)
+            for _ in range(6 if tier == "quick" else 60):
+                c = [rng.choice([1, -1]) * (2 ** rng.randint(53, 62) + rng.choice([1, 3, 5, 7])) for _ in range(3)]
+                pp = c[0] * q[rng.randrange(3)] ** rng.randint(1, 3) + c[1] * q[rng.randrange(3)] * q[10] + c[2]
+                sympy_roundtrip(pp, spec_of(pp), viol, stats)
     # names without a number suffix (force_number_suffix=False), python-side only
     for coefs in ([2, -1, 1], [-1, 0, 3], [1, 1, 1], [0, 0, 0]):
         with numpoly.global_options(force_number_suffix=False):
